@@ -119,9 +119,11 @@ func runC13(r *ev.Run) {
 					}
 				}
 			}
-			for id := range m.resident {
+			// (removed-but-not-yet-flushed vectors are promised nothing: an implementation may purge them early,
+			// as comet does when a tombstoned id is added again)
+			for id := range m.live {
 				if count[id] != 1 {
-					rep("ivf.list-membership", fmt.Sprintf("resident id %d is stored in %d lists", id, count[id]))
+					rep("ivf.list-membership", fmt.Sprintf("live id %d is stored in %d lists", id, count[id]))
 					return
 				}
 			}
@@ -233,6 +235,30 @@ func runC13(r *ev.Run) {
 				}
 				m.remove(id)
 				removals++
+				if rng.IntN(2) == 0 {
+					// update = remove + add of the same id (no Flush): usually into another cluster
+					v := vg.fresh()
+					for j := range v {
+						v[j] = -3*m.raw[id][j] + v[j]
+					}
+					nz := false
+					for _, x := range v {
+						if x != 0 {
+							nz = true
+						}
+					}
+					if !nz {
+						v[0] = 1
+					}
+					hist = append(hist, histOp{Op: "re-add", ID: id, Vec: cloneF32(v)})
+					if err := idx.Add(*comet.NewVectorNodeWithID(id, cloneF32(v))); err != nil {
+						rep("ivf.readd-error", err.Error())
+						return
+					}
+					m.add(id, v)
+					membership()
+					r.Count("ops:re-add-removed-id", 1)
+				}
 			default:
 				hist = append(hist, histOp{Op: "flush"})
 				if err := idx.Flush(); err != nil {
